@@ -1272,6 +1272,166 @@ fn ob_c19_repetition_compose_roundtrip(lower: usize, has_upper: bool, upper: usi
     }
 }
 
+// ---------------------------------------------------------------------------------------------
+// Items nested in function bodies, hoisted verbatim on every run (tools/vextract.py `hoist`): the
+// `IsRooting` fold of `Token::has_root` (C12) and `pop_expression_bytes` of `Tokenized::partition`
+// (C17/C08). Nothing outside those functions can name them, so the text is copied byte-identically
+// into this module; dropped: the enclosing function body (the fold driver call, T3).
+// ---------------------------------------------------------------------------------------------
+//@hoist src/token/mod.rs | has_root | struct IsRooting
+//@hoist src/token/mod.rs | has_root | impl<'t, A> Fold<'t, A> for IsRooting
+//@hoist src/token/mod.rs | partition | fn pop_expression_bytes(
+
+pub(crate) fn leaf_token(k: u8) -> Token<'static, ()> {
+    Token::new(leaf(k), ())
+}
+pub(crate) fn leaf_token_spanned(k: u8, span: Span) -> Token<'static, Span> {
+    Token::new(leaf(k), span)
+}
+// branch kinds: 0 alternation, 1 concatenation, 2 repetition (one child); children are `?` leaves
+pub(crate) fn mk_branch(bk: u8, n: usize, lower: usize, upper: Option<usize>) -> BranchKind<'static, ()> {
+    let kids = match n {
+        1 => vec![leaf_token(1)],
+        2 => vec![leaf_token(1), leaf_token(1)],
+        _ => vec![leaf_token(1), leaf_token(1), leaf_token(1)],
+    };
+    match bk {
+        0 => BranchKind::Alternation(Alternation(kids)),
+        1 => BranchKind::Concatenation(Concatenation(kids)),
+        _ => {
+            core::mem::forget(kids);
+            BranchKind::Repetition(Repetition { token: Box::new(leaf_token(1)), lower, upper })
+        },
+    }
+}
+fn mk_when(k: u8) -> When {
+    match k {
+        0 => When::Never,
+        1 => When::Sometimes,
+        _ => When::Always,
+    }
+}
+// interval reading of `When` over "does a match begin with a separator": lo = must, hi = may
+fn w_lo(w: When) -> u8 {
+    if w.is_always() { 1 } else { 0 }
+}
+fn w_hi(w: When) -> u8 {
+    if w.is_never() { 0 } else { 1 }
+}
+// one concrete (branch kind, number of terms) case of the REAL `IsRooting::fold`; the branch kind and
+// the number of terms are constants at every call site (symbolic ones gave no verdict in 15 min, the
+// constant cases take 2-6 s each), the terms and the repetition bounds are symbolic
+fn isrooting_fold_case(bk: u8, n: usize, ws: [u8; 3], lower: usize, upper: Option<usize>) {
+    let branch = mk_branch(bk, n, lower, upper);
+    let terms = match n {
+        1 => vec![mk_when(ws[0])],
+        2 => vec![mk_when(ws[0]), mk_when(ws[1])],
+        _ => vec![mk_when(ws[0]), mk_when(ws[1]), mk_when(ws[2])],
+    };
+    let mut fold = IsRooting;
+    let r = crate::token::walk::Fold::<()>::fold(&mut fold, &branch, terms);
+    core::mem::forget(branch); // no recursive drop glue in the goto program
+    let r = match r {
+        Some(r) => r,
+        None => {
+            assert!(false, "C12 a branch with starting tokens has a rooting term");
+            return;
+        },
+    };
+    let mut lo = w_lo(mk_when(ws[0]));
+    let mut hi = w_hi(mk_when(ws[0]));
+    let mut i = 1;
+    while i < n {
+        let w = mk_when(ws[i]);
+        if w_lo(w) < lo {
+            lo = w_lo(w);
+        }
+        if w_hi(w) > hi {
+            hi = w_hi(w);
+        }
+        i += 1;
+    }
+    match bk {
+        0 => {
+            assert!(w_lo(r) == lo, "C12 an alternation always has a root only if every branch always has one");
+            assert!(w_hi(r) == hi, "C12 an alternation never has a root only if no branch ever has one");
+        },
+        1 => {
+            // the Starting sequencer hands a concatenation exactly its first token (C12.seq.starting)
+            assert!(r == mk_when(ws[0]), "C12 a concatenation is rooted as its first token is");
+        },
+        _ => {
+            if lower == 0 {
+                assert!(w_lo(r) == 0, "C12 an optional repetition never makes a pattern always rooted");
+                assert!(w_hi(r) == w_hi(mk_when(ws[0])), "C12 an optional repetition of an unrooted body is never rooted");
+            }
+            else {
+                assert!(r == mk_when(ws[0]), "C12 a repetition that occurs at least once is rooted as its body is");
+            }
+        },
+    }
+}
+
+//@ob C12.has_root.fold
+//@ props: C12 C05
+//@ kind: complete
+//@ fns: src/token/mod.rs::Token::has_root::IsRooting::fold src/token/mod.rs::BranchKind::composition src/token/mod.rs::BranchKind::tokens src/token/mod.rs::Repetition::variance src/query.rs::When::or src/query.rs::When::certainty src/query.rs::When::and
+//@ pre: any rooting terms (Never / Sometimes / Always) of the starting tokens of a branch: 1..=3 branches of an alternation, the first token of a concatenation, the body of a repetition with any ordered bounds
+//@ post: the REAL fold of has_root (hoisted from the function body) gives, on the interval reading of When: alternation = join of its branches (Always only if every branch is Always, Never only if every branch is Never); concatenation = its first token; repetition = its body if it occurs at least once, and never Always if it may occur zero times
+fn ob_c12_has_root_fold(w0: u8, w1: u8, w2: u8, lower: usize, bounded: bool, upper: usize) {
+    vassume!(w0 <= 2 && w1 <= 2 && w2 <= 2);
+    // T6: ordered, non-degenerate repetition bounds
+    vassume!(!bounded || (lower <= upper && upper != 0));
+    let up = if bounded { Some(upper) } else { None };
+    let ws = [w0, w1, w2];
+    vcover!(w0 == 2 && w1 == 1);
+    vcover!(lower == 0 && w0 == 2);
+    isrooting_fold_case(0, 1, ws, lower, up);
+    isrooting_fold_case(0, 2, ws, lower, up);
+    isrooting_fold_case(0, 3, ws, lower, up);
+    isrooting_fold_case(1, 1, ws, lower, up);
+    isrooting_fold_case(2, 1, ws, lower, up);
+}
+
+//@ob C12.has_root.term
+//@ props: C12 C05
+//@ kind: complete
+//@ fns: src/token/mod.rs::Token::has_root::IsRooting::term src/token/mod.rs::LeafKind::is_rooting src/query.rs::When::from<bool>
+//@ pre: any leaf kind (all eight enumerated)
+//@ post: the REAL leaf term of has_root is Always for a separator and a rooted tree wildcard, Never for every other leaf -- never Sometimes (a glob without branches never reports 'sometimes')
+fn ob_c12_has_root_term(k: u8) {
+    vassume!(k < KINDS);
+    let l = leaf(k);
+    let mut fold = IsRooting;
+    let w = crate::token::walk::Fold::<()>::term(&mut fold, &l);
+    core::mem::forget(l);
+    vcover!(k == 7);
+    assert!(w.is_always() == (k == 5 || k == 7), "C12 exactly separators and rooted tree wildcards always root");
+    assert!(w.is_never() == !(k == 5 || k == 7), "C12 a leaf is never 'sometimes' rooted");
+}
+
+//@ob C17.partition.pop-expression-bytes
+//@ props: C17 C05
+//@ kind: bounded(expressions of at most 4 bytes, every valid UTF-8 content; any offset)
+//@ unwind: 6
+//@ fns: src/token/mod.rs::Tokenized::partition::pop_expression_bytes
+//@ pre: any valid UTF-8 expression of at most 4 bytes; an offset that lies on a character boundary or beyond the end (the sum of whole token spans, T4)
+//@ post: the REAL pop_expression_bytes (hoisted from partition) returns exactly the expression without its first min(offset, len) BYTES -- the same unit the token spans are shifted by -- so spans of the postfix index the postfix expression
+fn ob_c17_partition_pop_expression_bytes(buf: [u8; 4], len: usize, n: usize) {
+    vassume!(len <= 4);
+    let s = match core::str::from_utf8(&buf[..len]) {
+        Ok(s) => s,
+        Err(_) => return,
+    };
+    vassume!(n >= len || s.is_char_boundary(n));
+    vcover!(len == 4 && n == 3);
+    vcover!(len == 2 && n == 7);
+    let r = pop_expression_bytes(s, n);
+    let m = if n < len { n } else { len };
+    assert!(r.len() == len - m, "C17 exactly min(offset, len) bytes are removed");
+    assert!(r.as_ptr() as usize == s.as_ptr() as usize + m, "C17 the bytes are removed from the front");
+}
+
 //@ob C10.token.canary
 //@ props: C10
 //@ kind: canary
